@@ -851,6 +851,9 @@ class TdmsChannel(object):
             raise ValueError("length must be non-negative")
         if self._reader.is_index_file_only():
             raise RuntimeError("Data cannot be read from index file only")
+        if self.data_type is None:
+            # A channel without a data type has no data, so there is nothing to read from the file
+            return None
 
         with Timer(log, "Allocate space for channel"):
             # Allocate space for data
